@@ -10,7 +10,7 @@ ids=${@:-$(ls seeded)}
 for id in $ids; do
   prop=$(python3 -c "import json;print(json.load(open('seeded/$id/meta.json'))['breaks_property'])")
   git -C $R checkout -q -- . ; git -C $R clean -fdq src; git -C $R apply "$(pwd)/seeded/$id/patch.diff" 2>/dev/null || { echo "$id: patch does not apply to this tree ($(python3 -c "import json;print(json.load(open('seeded/$id/meta.json')).get('applies_to','?'))"))"; continue; }
-  VERIF_REPO=$R VERIF_PLAYBACKS=0 VERIF_SEARCHES=1 ./check $prop > work/sweep_$id.out 2> work/sweep_$id.err; rc=$?
+  VERIF_REPO=$R VERIF_PLAYBACKS=0 VERIF_SEARCHES=4 ./check $prop > work/sweep_$id.out 2> work/sweep_$id.err; rc=$?
   echo "$id ($prop) rc=$rc violations=$(grep -c VIOLATION work/sweep_$id.out) | $(tail -1 work/sweep_$id.err | cut -c1-150)"
   git -C $R checkout -q -- . ; git -C $R clean -fdq src
 done
